@@ -185,3 +185,250 @@ def default_instances(classes):
         except Exception:
             pass
     return out
+
+
+# =============================================================================================
+# Systematic sweeps (added after seeded change C01-2 was missed: no fixture holds the long terminology keys)
+# =============================================================================================
+def terminology_members():
+    """every member of every enum of psd_tools/terminology.py -> [(enum name, member)]"""
+    import enum
+
+    import psd_tools.terminology as T
+    out = []
+    for nm in sorted(vars(T)):
+        K = getattr(T, nm)
+        if isinstance(K, type) and issubclass(K, enum.Enum) and K.__module__ == T.__name__ and len(K):
+            if isinstance(next(iter(K)).value, bytes):
+                out += [(nm, m) for m in K]
+    return out
+
+
+def key_positions(v):
+    """tiny descriptor structures with the byte string `v` in each position a key / class id / type id / enum value
+    can take -> [(position, instance)]"""
+    import psd_tools.psd.descriptor as D
+    one = D.Integer(1)
+    return [
+        ("descriptor-key", D.Descriptor(items=[(v, one)])),
+        ("descriptor-classID", D.Descriptor(classID=v, items=[(b"abcd", one)])),
+        ("descriptor-block-key", D.DescriptorBlock(items=[(v, D.Descriptor(classID=v))])),
+        ("descriptor-block2-classID", D.DescriptorBlock2(classID=v)),
+        ("object-array-key", D.ObjectArray(items_count=1, classID=v, items=[(v, D.UnitFloats(values=[1.0]))])),
+        ("global-object-key", D.GlobalObject(classID=v, items=[(v, D.Bool(True))])),
+        ("enumerated-type", D.Enumerated(typeID=v, enum=b"abcd")),
+        ("enumerated-value", D.Enumerated(typeID=b"abcd", enum=v)),
+        ("reference-property", D.Reference([D.Property(classID=v, keyID=v)])),
+        ("reference-class", D.Reference([D.Class1(classID=v), D.Class2(classID=v), D.Class3(classID=v)])),
+        ("reference-enumerated", D.Reference([D.EnumeratedReference(classID=v, typeID=v, enum=v)])),
+        ("reference-offset-name", D.Reference([D.Offset(classID=v, value=7), D.Name(classID=v, value="n"),
+                                               D.Identifier(3), D.Index(4)])),
+        ("nested-list", D.Descriptor(items=[(v, D.List([D.Enumerated(v, v), D.Descriptor(classID=v, items=[(v, D.String("s"))])]))])),
+    ]
+
+
+def key_candidates():
+    """-> [(origin, bytes)]: every terminology member (as its value), plus non-term keys of length 0..12"""
+    out = [("term:%s.%s" % (nm, m.name), m.value) for nm, m in terminology_members()]
+    import psd_tools.psd.descriptor as D
+    for n in range(0, 13):
+        out.append(("ascii%d" % n, (b"keyKEYkey012_")[:n]))
+        out.append(("high%d" % n, bytes((0x80 + 9 * i) % 256 for i in range(n))))
+        out.append(("zero%d" % n, bytes(n)))
+        out.append(("ff%d" % n, b"\xff" * n))
+    out.append(("implicit-4", D._ImplicitKey(b"zzzz")) if hasattr(D, "_ImplicitKey") else ("ascii4b", b"zzzz"))
+    out.append(("term-prefix-5", b"Rd  x"))
+    out.append(("term-suffix-5", b"xRd  "))
+    return out
+
+
+def unit_instances():
+    import psd_tools.psd.descriptor as D
+    from psd_tools.terminology import Enum, Unit
+    out = []
+    for u in Unit:
+        for val in (0.0, -0.0, 1.5, 1.7976931348623157e308):
+            out.append(("unit-float:%s" % u.name, D.UnitFloat(unit=u, value=val)))
+        out.append(("unit-floats:%s" % u.name, D.UnitFloats(unit=u, values=[0.0, 2.0])))
+        out.append(("unit-floats-empty:%s" % u.name, D.UnitFloats(unit=u, values=[])))
+    for e in list(Enum)[::7]:
+        try:
+            Unit(e.value)
+            continue
+        except ValueError:
+            pass
+        out.append(("unit-float-enum:%s" % e.name, D.UnitFloat(unit=e, value=2.5)))
+    return out
+
+
+def ostype_instances():
+    """one item of every registered OSType class (default instance) inside a descriptor and a list"""
+    import psd_tools.psd.descriptor as D
+    out = []
+    for ost, K in sorted(D.TYPES.items(), key=lambda kv: getattr(kv[0], "value", kv[0])):
+        try:
+            x = K()
+        except Exception:
+            continue
+        nm = getattr(ost, "name", str(ost))
+        out.append(("ostype-in-descriptor:%s" % nm, D.Descriptor(items=[(b"item", x)])))
+        out.append(("ostype-in-list:%s" % nm, D.List([x, K()])))
+    for val, K in ((0, D.Integer), (-2 ** 31, D.Integer), (2 ** 31 - 1, D.Integer), (-2 ** 63, D.LargeInteger),
+                   (2 ** 63 - 1, D.LargeInteger), (0.0, D.Double), (-0.0, D.Double), (False, D.Bool), (True, D.Bool),
+                   ("", D.String), ("é\U0001f600", D.String), (b"", D.RawData), (b"\x00", D.RawData)):
+        out.append(("value:%s:%r" % (K.__name__, val), D.Descriptor(items=[(b"item", K(val))])))
+    return out
+
+
+VARIANT_SELECTORS = ("version", "count", "is_written")
+_SRC_CACHE: dict = {}
+
+
+def _codec_source(K):
+    if K not in _SRC_CACHE:
+        src = []
+        for nm in ("read", "_read_body", "write", "_write_body"):
+            fn = getattr(K, nm, None)
+            try:
+                src.append(inspect.getsource(fn))
+            except (TypeError, OSError):
+                pass
+        _SRC_CACHE[K] = "\n".join(src)
+    return _SRC_CACHE[K]
+
+
+def _selector(K, field_name):
+    """fields that select a variant or fix a count are not varied alone (the other fields would have to follow):
+    recognised by name, or by the codec comparing the field with a constant (`self.kind == ...`, `version >= 2`).
+    Presence tests (`is not None`) and plain truth tests do not make a field a selector."""
+    import re
+    if any(s in field_name for s in VARIANT_SELECTORS):
+        return True
+    nm = re.escape(field_name.lstrip("_"))
+    return re.search(r"(?<![A-Za-z0-9_])(self\._?)?%s\s*(==|!=|>=|<=|>|<|\bin\b)" % nm, _codec_source(K)) is not None
+
+
+def _boundary_values(cur):
+    import enum
+    if isinstance(cur, enum.Enum):
+        return [m for m in type(cur) if m is not cur]
+    if isinstance(cur, bool):
+        return [not cur]
+    if isinstance(cur, int):
+        return [0] if cur != 0 else []
+    if isinstance(cur, float):
+        return [0.0] if cur != 0.0 else []
+    if isinstance(cur, str):
+        return [""] if cur != "" else []
+    return []
+
+
+def field_boundary_instances(classes, sink, per_class=3):
+    """for every opaque element class: baselines = the first `per_class` fixture instances + the default instance,
+    each of which round-trips; then every scalar field in turn set to its lower boundary (0, 0.0, False/True, "")
+    and every enum-valued field to every other member. -> [(label, baseline, mutated, context)]"""
+    out = []
+    for name, K in sorted(classes.items()):
+        if name in CONTEXT_DEPENDENT or token_level(K) or not attr.has(K):
+            continue
+        bases = list(sink.get(K, []))[:per_class]
+        try:
+            bases.append(K())
+        except Exception:
+            pass
+        for bi, x in enumerate(bases):
+            try:
+                v, kw, _ = check_instance(x)
+            except Exception:
+                continue
+            if v != "ok":
+                continue
+            for f in attr.fields(K):
+                if _selector(K, f.name):
+                    continue
+                try:
+                    cur = getattr(x, f.name)
+                except Exception:
+                    continue
+                for c in _boundary_values(cur):
+                    try:
+                        y = attr.evolve(x, **{f.name.lstrip("_"): c})
+                    except Exception:
+                        continue
+                    out.append(("%s.%s=%s" % (name, f.name, getattr(c, "name", repr(c))), x, y, kw))
+    return out
+
+
+def field_boundary_sweep(classes, sink, per_class=3):
+    """-> (evaluated, failures [(signature, label, instance, verdict, kwargs, bytes)], not_stored [labels])"""
+    failures, not_stored, n = [], [], 0
+    for label, x, y, kw in field_boundary_instances(classes, sink, per_class):
+        n += 1
+        try:
+            v, kw2, d = check_instance(y)
+        except Exception:
+            continue
+        if v in ("ok", "na"):
+            continue
+        try:
+            stored = y.tobytes(**kw) != x.tobytes(**kw)
+        except Exception:
+            stored = True
+        if not stored:
+            not_stored.append(label)          # the field is not on disk in this state (information)
+            continue
+        cls, fld = label.split("=")[0].split(".", 1)
+        data = d[0] if d and isinstance(d[0], (bytes, bytearray)) else b""
+        failures.append(("C01/payload-field/%s.%s/%s" % (cls, fld, v.split(":")[0]), label, y, v, kw2, data))
+    return n, failures, not_stored
+
+
+def sweep(ctx_hist=None):
+    """run every systematic instance through the round-trip oracle.
+    -> (evaluated, failures [(signature, label, instance, verdict, kwargs, bytes)], format_excluded [labels])"""
+    failures, excluded, n = [], [], 0
+
+    def one(label, x):
+        nonlocal n
+        n += 1
+        try:
+            v, kw, d = check_instance(x)
+        except Exception as e:  # noqa
+            return "oracle-error:" + type(e).__name__, None, None
+        return v, kw, d
+
+    # keys: one combined structure per candidate; on failure, each position alone
+    import psd_tools.psd.descriptor as D
+    for origin, v in key_candidates():
+        try:
+            parts = key_positions(v)
+            combined = D.Descriptor(classID=v, items=[(b"p%03d" % i, x if not isinstance(x, D.DescriptorBlock) and
+                                                       not isinstance(x, D.DescriptorBlock2) else D.Descriptor(classID=v))
+                                                      for i, (_, x) in enumerate(parts)] + [(v, D.Integer(1))])
+        except Exception as e:  # noqa
+            failures.append(("C01/descriptor-key/constructor-raises", origin, None, type(e).__name__, None, b""))
+            continue
+        verdict, kw, d = one(origin, combined)
+        bad = []
+        if verdict not in ("ok", "na") or origin.startswith("term:") is False:
+            for pos, x in parts:
+                pv, pkw, pd = one(origin + "@" + pos, x)
+                if pv not in ("ok", "na"):
+                    bad.append((pos, x, pv, pkw, pd))
+            if verdict not in ("ok", "na") and not bad:
+                bad.append(("combined", combined, verdict, kw, d))
+        if len(v) == 0:
+            # a key of length 0 cannot be expressed: the length field 0 announces a 4-byte key (format rule, not a finding)
+            excluded.append("%s: %d positions do not round-trip" % (origin, len(bad)))
+            continue
+        for pos, x, pv, pkw, pd in bad[:1]:
+            kind = "term" if origin.startswith("term:") else "non-term-length-%d" % len(v)
+            data = pd[0] if pd and isinstance(pd[0], (bytes, bytearray)) else b""
+            failures.append(("C01/descriptor-key/%s/%s/%s" % (kind, pos, pv.split(":")[0]), origin + "@" + pos, x, pv, pkw, data))
+    for group, items in (("descriptor-unit", unit_instances()), ("descriptor-ostype", ostype_instances())):
+        for label, x in items:
+            v, kw, d = one(label, x)
+            if v not in ("ok", "na"):
+                data = d[0] if d and isinstance(d[0], (bytes, bytearray)) else b""
+                failures.append(("C01/%s/%s/%s" % (group, label.split(":")[0], v.split(":")[0]), label, x, v, kw, data))
+    return n, failures, excluded
